@@ -29,7 +29,7 @@ Proof. unfold opc. destruct (operand_parens sl (okind_of t) && negb operand_keep
 Lemma sq1_set_wa c b : sq1 (set_wa c b) = sq1 c. Proof. reflexivity. Qed.
 Lemma sq1_set_subq c b : sq1 (set_subq c b) = sq1 c. Proof. reflexivity. Qed.
 Lemma sq1_set_subc c b : sq1 (set_subc c b) = sq1 c. Proof. reflexivity. Qed.
-Lemma sq1_fctx c : sq1 (fctx c) = true. Proof. reflexivity. Qed.
+Lemma sq1_fctx c : sq1 (fctx c) = sq1 c. Proof. reflexivity. Qed.
 
 (* ---- shape commutes with the token combinators ---- *)
 Lemma map_shape_alias c qc ts alias : map shape (alias_toks c qc ts alias) = alias_toks c qc (map shape ts) alias.
@@ -128,7 +128,7 @@ Proof.
   - (* TCplx *) intros bo l IHl r IHr alias c H. cbn [map_strs toks]. rewrite !top_bop_map.
     eapply rmap_bind_cong; [apply IHl; exact H|]. intros a' a Ha.
     eapply rmap_bind_cong; [apply IHr; exact H|]. intros b' b Hb.
-    sh. congruence.
+    destruct (wa c); sh; congruence.
   - (* TIn *) intros t IHt cont IHc negated alias c H. cbn [map_strs toks]. rewrite !opc_map.
     eapply rmap_bind_cong; [apply IHt; rewrite sq1_opc; exact H|]. intros a' a Ha.
     eapply rmap_bind_cong; [apply IHc; exact H|]. intros b' b Hb.
@@ -160,7 +160,7 @@ Proof.
       * eapply rmap_bind_cong; [apply IHe; exact H|]. intros a' a Ha. sh. congruence.
       * intros e' e He. destruct (wa c); sh; congruence.
   - (* TFunc *) intros name args IHa special alias c H. cbn [map_strs toks].
-    eapply rmap_bind_cong; [apply IHa; apply sq1_fctx|]. intros ss' ss Hss.
+    eapply rmap_bind_cong; [apply IHa; exact H|]. intros ss' ss Hss.
     destruct (wa c); sh; congruence.
   - (* TTuple *) intros vs IHv alias c H. cbn [map_strs toks].
     eapply rmap_bind_cong; [apply IHv; exact H|]. intros ss' ss Hss. sh. congruence.
